@@ -347,6 +347,10 @@ PLAN = [
      "oracles": {"make_same_degree": 2, "locate_point": 2, "specialize_curve": 3, "vector_close": 2,
                  "convex_hull_collide": 2, "full_newton": 4},
      "emits": ["add_intersection"], "classes": ["Linearization"]},
+    # Bezier clipping: the implicit line of the fat line and the per-chord update of the clipped range (the loops around them are
+    # modelled by hand in Model/Clip.v and tied by correspondence)
+    {"src": "hazmat/clipping.py", "out": "PyFnClipping.v", "fns": ["compute_implicit_line", "_update_parameters"],
+     "imports": ["PyFnHelpers", "PyFnGeometric"]},
     # algebraic strategy: implicitization (degree 1, 2 explicit; degree 3 through the oracle _evaluate3 = a 6x6 determinant),
     # the interpolation formulas (the sampled function is an oracle), Bernstein -> power basis
     {"src": "hazmat/algebraic_intersection.py", "out": "PyFnAlgebraic.v",
